@@ -327,7 +327,7 @@ def worker(acc, shard, nshards, tier, seed):
                 for max_it, thr in ((1, None), (2, 0), (3, 0.001), (3, None)):
                     check_loop(acc, E, coll, c, mask, nd, kw, use_c, max_it, thr)
         acc.case(sub, nontrivial=bool(nt))
-        if acc.states % 5003 == 1:
+        if not acc.samples or acc.states % 5003 == 1:
             acc.sample({'series': coll, 'c': c, 'mask': mask, 'settings': kw})
 
 
